@@ -402,7 +402,62 @@ def run_large(rec, seed, shard, nshards, tier):
             raise Violation('value_round_trip', f'a list of {n} values is not read back unchanged: {bad[:4]}', {'values': bad[:50], 'encoding': 'utf-8', 'lines': n})
 
 
+# ---------------------------------------------------------------- numeric shapes of the probability column
+def prop_shapes(case, rec):
+    """A terminal list whose counts give probabilities of awkward shapes (differences of 1e-16 and less, 17-digit and
+    exponent spellings, 1.0, exact ties): both loaders must return count/total for every value, the guesser must group
+    exactly the equal ones."""
+    from lib_trainer.save_pcfg_data import calculate_and_save_counter
+    from lib_guesser.grammar_io import _load_from_file as gload
+    from lib_scorer.grammar_io import _load_from_file as sload
+    path = os.path.join(_dir(), 'shape.txt')
+    cnt = Counter({v: c for v, c in case['counts']})
+    total = sum(cnt.values())
+    with core.quiet():
+        if not guard(case, calculate_and_save_counter, path, cnt, 'utf-8'):
+            raise Violation('writer_failed', 'calculate_and_save_counter returned False', case)
+        section, sc = [], Counter()
+        g_ok = guard(case, gload, section, path, 'utf-8')
+        s_ok = guard(case, sload, sc, path, 'utf-8')
+    want = {v: c / total for v, c in cnt.items()}
+    got_g = {x: grp['prob'] for grp in section for x in grp['values']}
+    gaps = sorted(set(want.values()))
+    close = any(0 < b - a < 3e-16 for a, b in zip(gaps, gaps[1:]))
+    rec.case({'counts': case['counts'][:6], 'total': total}, close or len(set(want.values())) < len(want),
+             ['prob_shapes'] + (['distinct_probabilities_closer_than_3e-16'] if close else []) + (['exact_ties'] if len(set(want.values())) < len(want) else []), key=case)
+    if got_g != want or dict(sc) != want or not g_ok or not s_ok:
+        diff = {k: (got_g.get(k), dict(sc).get(k), want.get(k)) for k in want if got_g.get(k) != want[k] or dict(sc).get(k) != want[k]}
+        raise Violation('value_round_trip', f'probabilities read back differ (value: guesser, scorer, written): {dict(list(diff.items())[:4])}', case)
+    for grp in section:
+        if len({want[x] for x in grp['values']}) != 1:
+            raise Violation('group_mixes_probabilities', f'the guesser put values of different probabilities into one group: '
+                            f'{[(x, want[x]) for x in grp["values"]][:5]}', case)
+    groups_of = {}
+    for i, grp in enumerate(section):
+        for x in grp['values']:
+            groups_of.setdefault(want[x], set()).add(i)
+    if any(len(g_) > 1 for g_ in groups_of.values()):
+        raise Violation('equal_probabilities_split', f'values of one probability are spread over several groups: {[(p_, sorted(g_)) for p_, g_ in groups_of.items() if len(g_) > 1][:3]}', case)
+
+
+@st.composite
+def shape_cases(draw):
+    big = draw(st.sampled_from([0, 0, 997, 10 ** 6 + 3, 4503599627370497, 9 * 10 ** 15, 10 ** 18, 2 ** 60]))
+    names = ['a', 'b', 'c', 'd', 'e', 'f', 'g', 'h']
+    k = draw(st.integers(1, 7))
+    counts = [[names[i], draw(st.sampled_from([1, 1, 2, 3, 4, 5, 7, 10, 99, 100000]))] for i in range(k)]
+    if big:
+        counts.append(['zz', big])
+    return {'counts': counts}
+
+
+def run_shapes(rec, seed, shard, nshards, tier):
+    n = {'quick': 300, 'thorough': 20000}[tier]
+    core.hyp_run(rec, prop_shapes, shape_cases(), n, seed)
+
+
 PARTS = [
+    Part('probability_shapes', run_shapes, prop_shapes, {'quick': 2, 'thorough': 8}),
     Part('large_files', run_large, replay_values, {'quick': 1, 'thorough': 1}),
     Part('exhaustive_code_points', run_sweep, replay_values, {'quick': 16, 'thorough': 16}),
     Part('trained_rulesets_all_loaders', run_trained, replay_values, {'quick': 8, 'thorough': 16}),
